@@ -305,6 +305,7 @@ func checkC01(c *Ctx) {
 	c01R4(c)
 	c01R6(c, live)
 	freshInputsRule(c, "C01.R7")
+	c01R8(c)
 }
 
 // ---------------------------------------------------------------------------
